@@ -29,7 +29,8 @@ def gen_struct(rnd, depth=0):
         return [gen_struct(rnd, depth + 1) for _ in range(n)]
     if k < 0.88:
         return tuple(gen_struct(rnd, depth + 1) for _ in range(n))
-    return {("k%d" % i): gen_struct(rnd, depth + 1) for i in range(n)}
+    keys = rnd.sample(["k0", "k1", "zeta", "alpha", "B", "a", "m2", "m10", "_x"], n)
+    return {k: gen_struct(rnd, depth + 1) for k in keys}
 
 
 def flatten(s, out):
@@ -133,7 +134,9 @@ def shape_results(rnd_seed, vals):
     if k < 0.6:
         return tuple(vals)
     if k < 0.8:
-        return {"r%d" % i: v for i, v in enumerate(vals)}
+        keys = list(range(len(vals)))
+        rnd.shuffle(keys)
+        return {"r%d" % k: v for k, v in zip(keys, vals)}
     if k < 0.9:
         cut = rnd.randint(1, len(vals) - 1)
         return [tuple(vals[:cut]), {"t": list(vals[cut:])}]
@@ -310,11 +313,14 @@ def worker(job):
         # kwargs refused
         if case_no % 10 == 0:
             for kw in ({"b": 2}, {"b": 0}, {"b": None}, {"b": False}, {"b": []}, {"b": 0.0}, {"b": ""}):
+                npub_before = sum(1 for e in recorder.events if e[0] == "pub")
                 try:
-                    prt.snark(lambda a, b=1: a)(3, **kw)
+                    prt.snark(lambda a, b=1: a)(3, [4, 2.5], **kw)
                     R.violation("kwargs-accepted", "keyword argument %r was accepted" % (kw,), kwargs=repr(kw))
                 except ValueError:
                     R.count("kwargs_refused")
+                if sum(1 for e in recorder.events if e[0] == "pub") != npub_before:
+                    R.violation("refused-call-published-values", "a call refused for its keyword argument %r had already made its positional arguments public" % (kw,), kwargs=repr(kw))
     return R.export()
 
 
